@@ -208,6 +208,10 @@ func c17ShapedFiles(shape string) (string, string) {
 		}
 	}
 	switch {
+	case shape == "one-food": // the whole log is one entry of one food with a category path
+		lb.WriteString(vFmtDay(3, "") + ":\n  dairy/milk/whole: 2\n")
+	case shape == "one-food-twice": // one food, logged on two days
+		lb.WriteString(vFmtDay(3, "") + ":\n  meal: 2\n" + vFmtDay(4, "") + ":\n  meal: 1\n")
 	case shape == "today-last":
 		day(3, 4)
 		day(5, 4)
@@ -503,7 +507,7 @@ func c17CLISpace() []c17CLICase {
 			}
 		}
 		out = append(out, c17CLICase{Cmd: ci, Sink: "regular-file-size-limit", Big: true})
-		for _, shape := range []string{"today-last", "today-first", "period-none", "epoch-last", "zero-first", "rows:255", "rows:256", "rows:257", "rows:65535", "rows:65536", "rows:65537"} {
+		for _, shape := range []string{"one-food", "one-food-twice", "today-last", "today-first", "period-none", "epoch-last", "zero-first", "rows:255", "rows:256", "rows:257", "rows:65535", "rows:65536", "rows:65537"} {
 			if strings.HasPrefix(shape, "rows:6") && !vThorough() && shape != "rows:65536" {
 				continue // quick: the exact power of two only
 			}
